@@ -2,7 +2,7 @@
    Two models. (1) The sequential projection (one call at a time; any clock advances, idle intervals, stop/start cycles,
    pre-existing files, create faults): Model/Rolling.v, compared with the real appender on every run. (2) The interleaving
    model (Model/RollingConc.v): any number of goroutines inside Write/rotate, every atomic load/store/CAS/swap its own
-   step, the clock advancing at any moment; file creation succeeds. The two agree on sequential executions
+   step, the clock advancing at any moment; file creation may fail at any rotation (C19). The two agree on sequential executions
    (c13_conc_solo_*, c13_conc_sequential_runs_agree). *)
 From LogV Require Import Base.Bytes Model.Rolling Proofs.RollingProofs Model.RollingConc Proofs.RollingConcProofs.
 From Coq Require Import Permutation.
@@ -56,7 +56,8 @@ Proof. exact every_write_exactly_once. Qed.
 Print Assumptions c13_conc_every_write_exactly_once.
 
 (* lands: a write can only hit a closed descriptor if TWO different rotations overlapped the window between loading the
-   descriptor and writing through it (the deferred close); with at most one, it lands *)
+   descriptor and writing through it (the deferred close); with at most one, it lands. ("overlaps" = started by the time of
+   the write and not successfully complete at the load; a rotation whose createFile failed never completes: see C19) *)
 Theorem c13_conc_closed_needs_two_rotations : forall t0 s t f d0,
   creach (c_start t0) s -> c_thr s t = RHolding f d0 -> c_fopen s f = false ->
   exists j k, j <> k /\ overlaps s d0 j /\ overlaps s d0 k.
